@@ -106,7 +106,7 @@ type FuncEffect struct {
 	// the same, per result position (a pointer result does not alias what only the
 	// error result refers to); nil for table-summarised functions
 	RetIdx map[int]rootSet
-	Spawns  *Witness // go statement reachable
+	Spawns *Witness // go statement reachable
 }
 
 func newEffect() *FuncEffect {
